@@ -15,7 +15,8 @@ FLOAT_POOL = [0.0, 0.07, -0.07, 0.15, -0.15, 0.29, -0.29, 0.95, 1.5, -1.5, 2.5, 
 FLOAT_SMALL = [0.0, 0.07, -0.07, 0.15, -0.15, 0.29, 0.95, 1.5, -1.5, 2.5, 3.14159, 123.456, 0.1, 0.3,
                1.0, -1.0]
 ALPHABETS = ["ab", "abc", "x", "01", "aeiou", "xyz ", "a.b*", "éü", "ABCdef123", " ", "-_",
-             string.ascii_lowercase, string.digits, "a\nb", "[]^$", "日本"]
+             string.ascii_lowercase, string.digits, "a\nb", "[]^$", "日本", "hello world", "aab", "xyzzy",
+             string.ascii_lowercase + string.hexdigits]
 NAMES = ["id", "name", "x", "y", "k", "items", "meta", "a b", "", "ключ", "a.b", "0", "type", "n1", "n2",
          "n3", "it's", 'q"q', "line\nbreak"]
 UUIDS = [_uuid.UUID("5a1f2e0c-9d3b-4c7a-8f21-0123456789ab"), _uuid.UUID("00000000-0000-4000-8000-000000000000"),
